@@ -87,7 +87,7 @@ fn main() {
         let _ = log::set_logger(&SINK);
         log::set_max_level(log::LevelFilter::Trace);
     }
-    std::panic::set_hook(Box::new(|_| {})); // a panic in the code under test is data, not noise
+    if std::env::var("DLTV_BT").is_err() { std::panic::set_hook(Box::new(|_| {})); } // a panic in the code under test is data, not noise (DLTV_BT=1: keep the messages, for debugging the drivers)
     let seed: u64 = arg(&args, "--seed").map(|s| s.parse().expect("seed")).unwrap_or(1);
     let n: usize = arg(&args, "--n").map(|s| s.parse().expect("n")).unwrap_or(100);
     let out_path = arg(&args, "--out").unwrap_or("/dev/stdout").to_string();
